@@ -210,4 +210,7 @@ def run(ctx):
         ctx.note('%s::nth chain (outermost first): %s' % (adt, names))
     ctx.floor('C03-R1', n1, 4, 'GradualPerformance::new')
     ctx.floor('C03-R2', n2, 20, 'nth flow slots')
+    # ---- R3: the difficulty half — the gradual next() and the one-shot calculation feed each skill under the same conditions (shared with C02-R8)
+    from props import C02
+    C02.r8_same_feeding(ctx, F, rule='C03-R3')
     ctx.not_decided('equality of the gradual value with the one-shot Performance(passed_objects(i), state) value')
